@@ -318,7 +318,7 @@ fn check_part_b(case: &Value, dw: &DocWorld) -> Vec<(String, Value, Value)> {
   let jws = match block_on(dw.doc.create_jws(&dw.storage, signer, &payload, &o)) {
     Err(e) => {
       if want == "produced" {
-        diffs.push(("create_jws_refused".into(), json!("produced"), json!(e.to_string())));
+        diffs.push(("~create_jws_refused".into(), json!("produced"), json!(e.to_string())));
       }
       return diffs;
     }
